@@ -10,7 +10,7 @@
    against the implementation. *)
 From Coq Require Import Reals List ZArith Bool.
 From Coquelicot Require Import Complex.
-From AL Require Import Base.CaseLib C12.Model C12.Spec C12.ModelR C12.Check C12.Proofs C12.ProofsT C12.ProofsR C12.ProofsQ.
+From AL Require Import Base.CaseLib C12.Model C12.Spec C12.ModelR C12.Check C12.Proofs C12.ProofsT C12.ProofsH C12.ProofsR C12.ProofsQ.
 Import ListNotations.
 
 (* the sums of the statement, spelled out *)
@@ -208,6 +208,43 @@ Example C12_example_mixed_nesting :
   = OVal (cq 2 1 0 1).
 Proof. vm_compute. reflexivity. Qed.
 Print Assumptions C12_example_mixed_nesting.
+
+(* the same agreement on the CURRENT contents of a filter object, whatever its stored
+   polynomials are (e.g. after filt.numpoly[k] = v): freq_response is the ratio of the sums of the
+   stored terms, the dft of the impulse response equals it, a complex exponential is scaled by it *)
+Theorem C12_fr_of_current_object : forall f w,
+  lf_fr CR_ops CR_cx f w
+  = if Ceqb (psum CR_ops CR_cx (snd f) w) (RtoC 0) then Nan
+    else Val (Cdiv (psum CR_ops CR_cx (fst f) w) (psum CR_ops CR_cx (snd f) w)).
+Proof. exact R_lf_fr_now. Qed.
+Print Assumptions C12_fr_of_current_object.
+
+Theorem C12_fir_dft_impulse_of_current_object : forall f w L ir,
+  fir_run CR_ops f (RtoC 0) (impulse CR_ops L) = Some ir ->
+  psum CR_ops CR_cx (snd f) w <> RtoC 0 ->
+  (forall kc, In kc (fst f) -> (fst kc < Z.of_nat L)%Z) ->
+  dft CR_ops CR_cx ir [w] false = Some [Cdiv (psum CR_ops CR_cx (fst f) w) (psum CR_ops CR_cx (snd f) w)].
+Proof. exact R_fir_dft_impulse_now. Qed.
+Print Assumptions C12_fir_dft_impulse_of_current_object.
+
+Theorem C12_fir_steady_state_of_current_object : forall f w zero len ys n,
+  fir_run CR_ops f zero (map (fun n => cis (w * INR n)) (seq 0 len)) = Some ys ->
+  psum CR_ops CR_cx (snd f) w <> RtoC 0 ->
+  fst f <> [] \/ zero = RtoC 0 ->
+  (forall kc, In kc (fst f) -> (fst kc <= Z.of_nat n)%Z) -> (n < len)%nat ->
+  nth n ys zero = Cmult (Cdiv (psum CR_ops CR_cx (fst f) w) (psum CR_ops CR_cx (snd f) w)) (cis (w * INR n)).
+Proof. exact fir_steady_state_now_R. Qed.
+Print Assumptions C12_fir_steady_state_of_current_object.
+
+(* histories on one object: the i-th observation is the per-call model applied to the object
+   as the edits before it left it - calls leave no trace *)
+Theorem C12_hist_calls_independent : forall w xs imp ops f i o,
+  nth_error ops i = Some o ->
+  nth_error (hist_run CR_ops CR_cx f w xs imp ops) i
+  = Some (hop_obs CR_ops CR_cx
+            (fold_left (hop_edit CR_ops) (filter (fun o => negb (is_call o)) (firstn i ops)) f) w xs imp o).
+Proof. exact R_hist_calls_independent. Qed.
+Print Assumptions C12_hist_calls_independent.
 
 (* non-vacuity: 1 + z^-1 satisfies every hypothesis above at every frequency *)
 Example C12_example_nonvacuous : forall w, exists f ys h,
